@@ -1,7 +1,669 @@
 package vc
 
-// Replay tries to reproduce a failed obligation on the real code. It returns the replay
-// file and whether the real code violated the obligation's postcondition.
-func Replay(e *Engine, res *CheckResult, ctx *FnCtx, o *Obligation, dir string) (string, bool) {
-	return res.WriteReplay(dir, ctx, o, ""), false
+import (
+	"bytes"
+	"encoding/json"
+	"fmt"
+	"go/ast"
+	"go/types"
+	"os"
+	osexec "os/exec"
+	"path/filepath"
+	"regexp"
+	"sort"
+	"strings"
+
+	"golang.org/x/tools/go/ssa"
+)
+
+// ---------------------------------------------------------------------------------------
+// Replay: turn the solver's counterexample of a failed obligation into an in-package Go test
+// that builds the input state on the REAL types, calls the REAL function and evaluates the
+// failed postcondition (compiled from the contract clause). The test is injected with
+// `go test -overlay`, nothing is written to the repository.
+//
+// Reach: functions whose inputs are scalars and struct pointers (handlers on *Raft, *storage,
+// *candidate, *follower, request structs). Maps, slices contents, byte streams and quantified
+// postconditions are not synthesised: such obligations are reported with
+// "no-failing-input-found" (the replay file then carries the obligation and the solver output).
+
+// witnessTerms extracts from the obligation the entry-state terms whose values identify the input:
+// parameters (in.x!N) and selects of initial heap arrays (H.*@0).
+func witnessTerms(o *Obligation) []string {
+	seen := map[string]bool{}
+	var out []string
+	add := func(s string) {
+		if !seen[s] {
+			seen[s] = true
+			out = append(out, s)
+		}
+	}
+	scan := func(s string) {
+		for i := 0; i < len(s); i++ {
+			if strings.HasPrefix(s[i:], "(select H.") || strings.HasPrefix(s[i:], "(select GV.") {
+				depth := 0
+				j := i
+				for ; j < len(s); j++ {
+					if s[j] == '(' {
+						depth++
+					} else if s[j] == ')' {
+						depth--
+						if depth == 0 {
+							break
+						}
+					}
+				}
+				t := s[i : j+1]
+				if initialOnly(t) {
+					add(t)
+				}
+			}
+		}
+		for _, m := range inParamRe.FindAllString(s, -1) {
+			add(m)
+		}
+	}
+	for _, p := range o.PC {
+		scan(p.S)
+	}
+	scan(o.Goal.S)
+	sort.Strings(out)
+	if len(out) > 400 {
+		out = out[:400]
+	}
+	return out
 }
+
+var inParamRe = regexp.MustCompile(`in\.[A-Za-z0-9_.]+![0-9]+`)
+var heapVerRe = regexp.MustCompile(`@([0-9]+)`)
+
+// initialOnly: the term mentions only entry-state heap arrays (@0), parameters and literals.
+func initialOnly(t string) bool {
+	for _, m := range heapVerRe.FindAllStringSubmatch(t, -1) {
+		if m[1] != "0" {
+			return false
+		}
+	}
+	if strings.Contains(t, "store") || strings.Contains(t, "ite") || strings.Contains(t, "!q") {
+		return false
+	}
+	// every "!" name must be a parameter
+	for _, m := range regexp.MustCompile(`[A-Za-z0-9_.]+![0-9]+`).FindAllString(t, -1) {
+		if !strings.HasPrefix(m, "in.") {
+			return false
+		}
+	}
+	return true
+}
+
+// parseModel parses "((t1 v1)\n (t2 v2))" from a get-value answer.
+func parseModel(out string) map[string]string {
+	res := map[string]string{}
+	i := strings.Index(out, "((")
+	if i < 0 {
+		return res
+	}
+	e := parseSexpr(out[i:])
+	if e == nil {
+		return res
+	}
+	for _, pair := range e.kids {
+		if len(pair.kids) == 2 {
+			res[pair.kids[0].String()] = pair.kids[1].String()
+		}
+	}
+	return res
+}
+
+func smtInt(v string) (string, bool) {
+	v = strings.TrimSpace(v)
+	if strings.HasPrefix(v, "(- ") {
+		n := strings.TrimSuffix(strings.TrimPrefix(v, "(- "), ")")
+		return "-" + n, true
+	}
+	for _, c := range v {
+		if c < '0' || c > '9' {
+			return "", false
+		}
+	}
+	return v, v != ""
+}
+
+type replayObj struct {
+	name  string
+	typ   types.Type // struct type
+	id    string     // model value of the reference
+	field map[string]string
+}
+
+type replayGen struct {
+	e      *Engine
+	ctx    *FnCtx
+	o      *Obligation
+	model  map[string]string
+	objs   map[string]*replayObj // by "typeKey#id"
+	order  []*replayObj
+	lines  []string
+	params map[string]string // param name -> Go expression
+	fail   string
+}
+
+// accessPath turns "(select H.raft.storage.term@0 <obj>)" into (objTerm, typeKey, leafPath).
+func splitSelect(t string) (heap, arg string, ok bool) {
+	if !strings.HasPrefix(t, "(select ") {
+		return "", "", false
+	}
+	rest := t[len("(select ") : len(t)-1]
+	sp := strings.Index(rest, " ")
+	if sp < 0 {
+		return "", "", false
+	}
+	return rest[:sp], rest[sp+1:], true
+}
+
+// namedStruct finds the module struct type whose typeKey is k.
+func (e *Engine) namedStruct(k string) types.Type {
+	for _, tt := range e.tagTypes {
+		if tt == nil {
+			continue
+		}
+		if _, isPtr := tt.(*types.Pointer); isPtr {
+			continue
+		}
+		if typeKey(tt) == k {
+			return tt
+		}
+	}
+	return nil
+}
+
+func (g *replayGen) objFor(t types.Type, id string) *replayObj {
+	k := typeKey(t) + "#" + id
+	if o, ok := g.objs[k]; ok {
+		return o
+	}
+	o := &replayObj{name: fmt.Sprintf("o%d", len(g.order)+1), typ: t, id: id, field: map[string]string{}}
+	g.objs[k] = o
+	g.order = append(g.order, o)
+	return o
+}
+
+// goType prints a type for use inside its own package.
+func (g *replayGen) goType(t types.Type) string {
+	return types.TypeString(t, func(p *types.Package) string {
+		if g.ctx.Fn.Pkg != nil && p == g.ctx.Fn.Pkg.Pkg {
+			return ""
+		}
+		return p.Name()
+	})
+}
+
+// Replay tries to reproduce a failed obligation on the real code. It returns the replay file and
+// whether the real code violated the obligation's postcondition.
+func Replay(e *Engine, res *CheckResult, ctx *FnCtx, o *Obligation, dir string) (string, bool) {
+	os.MkdirAll(dir, 0o755)
+	g := &replayGen{e: e, ctx: ctx, o: o, objs: map[string]*replayObj{}, params: map[string]string{}}
+	src, reason := g.generate()
+	if src == "" {
+		return res.WriteReplay(dir, ctx, o, "replay: not attempted: "+reason), false
+	}
+	base := unsafeFile.ReplaceAllString(res.Prop+"__"+o.Name+"__"+fmt.Sprintf("%08x", hashString(o.Path)), "_")
+	if len(base) > 160 {
+		base = base[:160]
+	}
+	testFile := filepath.Join(dir, base+"_test.go")
+	os.WriteFile(testFile, []byte(src), 0o644)
+	out, violated, ran := runReplay(e, ctx, testFile)
+	extra := fmt.Sprintf("replay test: %s\nrun with: cd %s && go test -overlay <overlay.json mapping zz_verif_replay_test.go to the file above and zz_verif_prelude_test.go to /verif/replay/prelude_%s_test.go> -vet=off -run TestVerifReplay .\n---- replay output ----\n%s",
+		testFile, pkgDir(e, ctx), pkgName(ctx), out)
+	if !ran {
+		return res.WriteReplay(dir, ctx, o, extra+"\nreplay: the generated test did not build or did not finish"), false
+	}
+	if violated {
+		res.WriteReplay(dir, ctx, o, extra)
+		return testFile, true
+	}
+	return res.WriteReplay(dir, ctx, o, extra+"\nreplay: the candidate input did not violate the postcondition on the real code"), false
+}
+
+func pkgDir(e *Engine, ctx *FnCtx) string {
+	p := ctx.Fn.Pkg.Pkg.Path()
+	return filepath.Join(e.RepoDir, strings.TrimPrefix(strings.TrimPrefix(p, ModPath), "/"))
+}
+
+func pkgName(ctx *FnCtx) string { return ctx.Fn.Pkg.Pkg.Name() }
+
+func runReplay(e *Engine, ctx *FnCtx, testFile string) (string, bool, bool) {
+	dir := pkgDir(e, ctx)
+	prelude := filepath.Join(filepath.Dir(filepath.Dir(testFile)), "replay", "prelude_"+pkgName(ctx)+"_test.go")
+	tmp, err := os.MkdirTemp("", "govc-replay")
+	if err != nil {
+		return err.Error(), false, false
+	}
+	defer os.RemoveAll(tmp)
+	repl := map[string]string{filepath.Join(dir, "zz_verif_replay_test.go"): testFile}
+	if _, err := os.Stat(prelude); err == nil {
+		repl[filepath.Join(dir, "zz_verif_prelude_test.go")] = prelude
+	}
+	ov, _ := json.Marshal(map[string]interface{}{"Replace": repl})
+	ovf := filepath.Join(tmp, "ov.json")
+	os.WriteFile(ovf, ov, 0o644)
+	cmd := osexec.Command("go", "test", "-overlay", ovf, "-vet=off", "-count=1", "-timeout", "60s", "-run", "^TestVerifReplay$", ".")
+	cmd.Dir = dir
+	cmd.Env = append(os.Environ(), "GOFLAGS=-mod=mod", "GOPROXY=off", "GOSUMDB=off", "GOTOOLCHAIN=local")
+	var buf bytes.Buffer
+	cmd.Stdout = &buf
+	cmd.Stderr = &buf
+	cmd.Run()
+	out := buf.String()
+	if len(out) > 6000 {
+		out = out[:6000]
+	}
+	switch {
+	case strings.Contains(out, "VERIF-REPLAY: VIOLATED"):
+		return out, true, true
+	case strings.Contains(out, "VERIF-REPLAY: HOLDS"):
+		return out, false, true
+	}
+	return out, false, false
+}
+
+// generate builds the Go test source, or returns "" and the reason.
+func (g *replayGen) generate() (string, string) {
+	o, ctx := g.o, g.ctx
+	if !strings.Contains(o.Model, "((") {
+		return "", "the solvers returned no model (" + o.Verdict + ")"
+	}
+	if o.Kind != "ensures" {
+		return "", "only postconditions are replayed (obligation kind " + o.Kind + ")"
+	}
+	var clause *Clause
+	for _, c := range ctx.C.Ensures {
+		if c.Label == o.Label {
+			clause = c
+		}
+	}
+	if clause == nil {
+		return "", "contract clause not found"
+	}
+	g.model = parseModel(o.Model)
+	if len(g.model) == 0 {
+		return "", "model could not be parsed"
+	}
+	fn := ctx.Fn
+	names := paramNames(fn, fn.Signature, ctx.C)
+	// parameters
+	for i, p := range fn.Params {
+		n := names[i]
+		switch pt := p.Type().Underlying().(type) {
+		case *types.Pointer:
+			st, ok := pt.Elem().Underlying().(*types.Struct)
+			_ = st
+			if !ok {
+				return "", "parameter " + n + ": pointer to non-struct"
+			}
+			id := g.valueOfParam(n)
+			if id == "" {
+				id = "p" + n
+			}
+			ob := g.objFor(pt.Elem(), id)
+			g.params[n] = ob.name
+		case *types.Basic:
+			v := g.valueOfParam(n)
+			if v == "" {
+				v = "0"
+			}
+			if pt.Info()&types.IsBoolean != 0 {
+				if v != "true" {
+					v = "false"
+				}
+				g.params[n] = v
+			} else if pt.Info()&types.IsInteger != 0 {
+				g.params[n] = fmt.Sprintf("%s(%s)", g.goType(p.Type()), v)
+			} else {
+				return "", "parameter " + n + " of type " + p.Type().String()
+			}
+		default:
+			return "", "parameter " + n + " of type " + p.Type().String()
+		}
+	}
+	// heap facts from the model
+	var keys []string
+	for k := range g.model {
+		keys = append(keys, k)
+	}
+	sort.Strings(keys)
+	progress := true
+	done := map[string]bool{}
+	for progress {
+		progress = false
+		for _, k := range keys {
+			if done[k] {
+				continue
+			}
+			heap, arg, ok := splitSelect(k)
+			if !ok || !strings.HasPrefix(heap, "H.") {
+				done[k] = true
+				continue
+			}
+			objID, known := g.termValue(arg)
+			if !known {
+				continue
+			}
+			done[k] = true
+			progress = true
+			// heap = H.<typeKey>.<leafpath>@0 ; typeKey may contain dots (pkg.Type)
+			hn := strings.TrimSuffix(strings.TrimPrefix(heap, "H."), "@0")
+			st, leaf := g.splitHeapName(hn)
+			if st == nil {
+				continue
+			}
+			ob := g.objFor(st, objID)
+			ob.field[leaf] = g.model[k]
+		}
+	}
+	// emit
+	var b strings.Builder
+	fmt.Fprintf(&b, "package %s\n\n", pkgName(ctx))
+	fmt.Fprintf(&b, "// Generated by govc: replay of obligation\n//   %s\n//   path: %s\n// on the real code with the solver's counterexample.\n\n", o.Name, o.Path)
+	b.WriteString("import (\n\t\"fmt\"\n\t\"testing\"\n)\n\n")
+	b.WriteString("func TestVerifReplay(t *testing.T) {\n")
+	for _, ob := range g.order {
+		fmt.Fprintf(&b, "\t%s := &%s{}\n", ob.name, g.goType(ob.typ))
+	}
+	for _, ob := range g.order {
+		st := ob.typ.Underlying().(*types.Struct)
+		var leaves []string
+		for l := range ob.field {
+			leaves = append(leaves, l)
+		}
+		sort.Strings(leaves)
+		for _, l := range leaves {
+			stmt := g.assign(ob, st, l, ob.field[l])
+			if stmt != "" {
+				fmt.Fprintf(&b, "\t%s\n", stmt)
+			}
+		}
+	}
+	// realizers from the prelude (make the objects usable by the real code)
+	for _, ob := range g.order {
+		fmt.Fprintf(&b, "\tverifRealize(t, %s)\n", ob.name)
+	}
+	// the call
+	var args []string
+	for i := range fn.Params {
+		args = append(args, g.params[names[i]])
+	}
+	// old() values and the postcondition
+	cg := &condGen{g: g, names: names}
+	post, err := cg.compile(clause.Expr)
+	if err != nil {
+		return "", "postcondition not executable: " + err.Error()
+	}
+	// the candidate input must satisfy the function's precondition (models of the relaxed query
+	// may not): evaluate every requires clause that has an executable form
+	for _, rq := range ctx.C.Requires {
+		pg := &condGen{g: g, names: names}
+		pre, perr := pg.compile(rq.Expr)
+		if perr != nil || len(pg.olds) > 0 {
+			fmt.Fprintf(&b, "\t// requires not executable, not checked: %s\n", strings.ReplaceAll(rq.Src, "\n", " "))
+			continue
+		}
+		fmt.Fprintf(&b, "\tif !(%s) {\n\t\tfmt.Println(\"VERIF-REPLAY: HOLDS (the candidate input does not satisfy the precondition: %s)\")\n\t\treturn\n\t}\n", pre, strings.ReplaceAll(strings.ReplaceAll(rq.Src, "\\", ""), "\"", "'"))
+	}
+	for i, oe := range cg.olds {
+		fmt.Fprintf(&b, "\told%d := %s\n", i, oe)
+	}
+	nres := fn.Signature.Results().Len()
+	var lhs []string
+	for i := 0; i < nres; i++ {
+		lhs = append(lhs, fmt.Sprintf("result%d", i))
+	}
+	call := ""
+	if fn.Signature.Recv() != nil {
+		call = fmt.Sprintf("%s.%s(%s)", args[0], fn.Name(), strings.Join(args[1:], ", "))
+	} else {
+		call = fmt.Sprintf("%s(%s)", fn.Name(), strings.Join(args, ", "))
+	}
+	b.WriteString("\tpanicked := true\n\tfunc() {\n\t\tdefer func() {\n\t\t\tif v := recover(); v != nil {\n\t\t\t\tfmt.Println(\"the call panicked:\", v)\n\t\t\t}\n\t\t}()\n")
+	if nres > 0 {
+		for i := 0; i < nres; i++ {
+			fmt.Fprintf(&b, "\t\tvar r%d %s\n", i, g.goType(fn.Signature.Results().At(i).Type()))
+		}
+		var rl []string
+		for i := 0; i < nres; i++ {
+			rl = append(rl, fmt.Sprintf("r%d", i))
+		}
+		fmt.Fprintf(&b, "\t\t%s = %s\n", strings.Join(rl, ", "), call)
+		for i := 0; i < nres; i++ {
+			fmt.Fprintf(&b, "\t\tverifResult%d = r%d\n", i, i)
+		}
+	} else {
+		fmt.Fprintf(&b, "\t\t%s\n", call)
+	}
+	b.WriteString("\t\tpanicked = false\n\t}()\n")
+	b.WriteString("\tif panicked {\n\t\tfmt.Println(\"VERIF-REPLAY: HOLDS (the call did not return normally, the postcondition does not apply)\")\n\t\treturn\n\t}\n")
+	for i := 0; i < nres; i++ {
+		fmt.Fprintf(&b, "\tresult%d := verifResult%d.(%s)\n\t_ = result%d\n", i, i, g.goType(fn.Signature.Results().At(i).Type()), i)
+	}
+	fmt.Fprintf(&b, "\tok := %s\n", post)
+	fmt.Fprintf(&b, "\tfmt.Printf(\"postcondition [%s] %%v\\n\", ok)\n", clause.Label)
+	b.WriteString("\tif !ok {\n\t\tfmt.Println(\"VERIF-REPLAY: VIOLATED\")\n\t\tt.Fatal(\"postcondition violated on the real code\")\n\t}\n\tfmt.Println(\"VERIF-REPLAY: HOLDS\")\n}\n\n")
+	for i := 0; i < nres; i++ {
+		fmt.Fprintf(&b, "var verifResult%d interface{}\n", i)
+	}
+	src := b.String()
+	// interface-typed results cannot be asserted from a nil interface{}: handle error results
+	for i := 0; i < nres; i++ {
+		rt := fn.Signature.Results().At(i).Type()
+		if isInterface(rt) {
+			old := fmt.Sprintf("\tresult%d := verifResult%d.(%s)\n", i, i, g.goType(rt))
+			nw := fmt.Sprintf("\tvar result%d %s\n\tif verifResult%d != nil {\n\t\tresult%d = verifResult%d.(%s)\n\t}\n", i, g.goType(rt), i, i, i, g.goType(rt))
+			src = strings.Replace(src, old, nw, 1)
+		}
+	}
+	return src, ""
+}
+
+func (g *replayGen) valueOfParam(name string) string {
+	for k, v := range g.model {
+		if strings.HasPrefix(k, "in."+name+"!") {
+			if iv, ok := smtInt(v); ok {
+				return iv
+			}
+			return v
+		}
+	}
+	return ""
+}
+
+// termValue: the model value of an object term (parameter or nested select).
+func (g *replayGen) termValue(t string) (string, bool) {
+	if v, ok := g.model[t]; ok {
+		if iv, ok := smtInt(v); ok {
+			return iv, true
+		}
+	}
+	if strings.HasPrefix(t, "in.") {
+		n := t[3:]
+		if i := strings.Index(n, "!"); i > 0 {
+			n = n[:i]
+		}
+		if v := g.valueOfParam(n); v != "" {
+			return v, true
+		}
+		return "p" + n, true
+	}
+	return "", false
+}
+
+// splitHeapName: "raft.storage.configs.Latest.Index" -> (struct type storage, "configs.Latest.Index")
+func (g *replayGen) splitHeapName(hn string) (types.Type, string) {
+	parts := strings.Split(hn, ".")
+	for i := len(parts) - 1; i >= 1; i-- {
+		k := strings.Join(parts[:i], ".")
+		if st := g.e.namedStruct(smtName(k)); st != nil {
+			return st, strings.Join(parts[i:], ".")
+		}
+	}
+	return nil, ""
+}
+
+// assign produces a Go statement setting one leaf of an object from its model value.
+func (g *replayGen) assign(ob *replayObj, st *types.Struct, leaf, val string) string {
+	// walk the leaf path through nested structs
+	parts := strings.Split(leaf, ".")
+	var t types.Type = st
+	var goPath []string
+	for pi, p := range parts {
+		s, ok := t.Underlying().(*types.Struct)
+		if !ok {
+			return ""
+		}
+		found := false
+		for i := 0; i < s.NumFields(); i++ {
+			if s.Field(i).Name() == p {
+				t = s.Field(i).Type()
+				goPath = append(goPath, p)
+				found = true
+				break
+			}
+		}
+		if !found {
+			// interface / slice leaf names (itag, ipay, sarr ...): not synthesised
+			_ = pi
+			return ""
+		}
+	}
+	lhs := ob.name + "." + strings.Join(goPath, ".")
+	switch u := t.Underlying().(type) {
+	case *types.Basic:
+		if u.Info()&types.IsBoolean != 0 {
+			return fmt.Sprintf("%s = %s", lhs, val)
+		}
+		if u.Info()&types.IsInteger != 0 {
+			if iv, ok := smtInt(val); ok {
+				return fmt.Sprintf("%s = %s", lhs, intLitFor(iv, u))
+			}
+		}
+	case *types.Pointer:
+		if _, ok := u.Elem().Underlying().(*types.Struct); ok {
+			if iv, ok := smtInt(val); ok {
+				if iv == "0" {
+					return fmt.Sprintf("%s = nil", lhs)
+				}
+				target := g.objFor(u.Elem(), iv)
+				return fmt.Sprintf("%s = %s", lhs, target.name)
+			}
+		}
+	}
+	return ""
+}
+
+func intLitFor(v string, b *types.Basic) string {
+	// values of unsigned types are non-negative in the model; large ones need no suffix in Go
+	return v
+}
+
+// ---- compiling a spec expression to Go -------------------------------------------------
+
+type condGen struct {
+	g     *replayGen
+	names []string
+	olds  []string
+	inOld bool
+}
+
+func (c *condGen) compile(e ast.Expr) (s string, err error) {
+	defer func() {
+		if r := recover(); r != nil {
+			if se, ok := r.(specErr); ok {
+				s, err = "", fmt.Errorf("%s", se.msg)
+				return
+			}
+			panic(r)
+		}
+	}()
+	return c.expr(e, map[string]string{}), nil
+}
+
+func (c *condGen) bad(format string, a ...interface{}) {
+	panic(specErr{fmt.Sprintf(format, a...)})
+}
+
+func (c *condGen) expr(e ast.Expr, env map[string]string) string {
+	switch n := e.(type) {
+	case *ast.ParenExpr:
+		return "(" + c.expr(n.X, env) + ")"
+	case *ast.BasicLit:
+		return n.Value
+	case *ast.Ident:
+		if v, ok := env[n.Name]; ok {
+			return v
+		}
+		if v, ok := c.g.params[n.Name]; ok {
+			return v
+		}
+		return n.Name // constants, result0, nil, true ...
+	case *ast.UnaryExpr:
+		return n.Op.String() + "(" + c.expr(n.X, env) + ")"
+	case *ast.BinaryExpr:
+		return "(" + c.expr(n.X, env) + " " + n.Op.String() + " " + c.expr(n.Y, env) + ")"
+	case *ast.SelectorExpr:
+		return c.expr(n.X, env) + "." + n.Sel.Name
+	case *ast.CallExpr:
+		id, ok := n.Fun.(*ast.Ident)
+		if !ok {
+			c.bad("call %s", types.ExprString(n))
+		}
+		switch id.Name {
+		case "implies":
+			return "(!(" + c.expr(n.Args[0], env) + ") || (" + c.expr(n.Args[1], env) + "))"
+		case "old":
+			if c.inOld {
+				return c.expr(n.Args[0], env)
+			}
+			c.inOld = true
+			v := c.expr(n.Args[0], env)
+			c.inOld = false
+			c.olds = append(c.olds, v)
+			return fmt.Sprintf("old%d", len(c.olds)-1)
+		case "forall", "exists", "forallr", "existsr", "lam", "cntv", "cntge", "scge":
+			c.bad("quantified / set-valued postcondition (%s)", id.Name)
+		}
+		if pf, ok := c.g.e.Specs.Pures[id.Name]; ok {
+			// a hand-written executable twin in the prelude?
+			if preludeHas(c.g, "verifPure_"+id.Name) {
+				var as []string
+				for _, a := range n.Args {
+					as = append(as, c.expr(a, env))
+				}
+				return fmt.Sprintf("verifPure_%s(%s)", id.Name, strings.Join(as, ", "))
+			}
+			// otherwise expand the definition
+			nenv := map[string]string{}
+			for i, p := range pf.Params {
+				nenv[p] = "(" + c.expr(n.Args[i], env) + ")"
+			}
+			return "(" + c.expr(pf.Body.Expr, nenv) + ")"
+		}
+		c.bad("spec function %s has no executable form", id.Name)
+	}
+	c.bad("expression %s", types.ExprString(e))
+	return ""
+}
+
+var preludeCache = map[string]string{}
+
+func preludeHas(g *replayGen, fn string) bool {
+	p := filepath.Join("/verif/replay", "prelude_"+pkgName(g.ctx)+"_test.go")
+	src, ok := preludeCache[p]
+	if !ok {
+		b, _ := os.ReadFile(p)
+		src = string(b)
+		preludeCache[p] = src
+	}
+	return strings.Contains(src, "func "+fn+"(")
+}
+
+var _ = ssa.NaiveForm
